@@ -1,15 +1,15 @@
 CONSTANTS
   Top = "A"
-  CaOf <- IdCa
+  CaOf <- SecondSlots
   ShadowRebuilt = TRUE
-  Sub = {"B", "C", "D"}
+  Sub = {"B", "C", "C2"}
   Res = {"p1", "p2", "a1"}
   TopRes = {"p1", "p2", "a1"}
   Roa <- GenRoa
   AspaDefs <- NoAspa
   ParentOf <- GenChain
-  Ops = {"res", "roa", "roadelta", "roll", "refresh"}
-  Depth = 30
+  Ops = {"parents", "res", "roa", "refresh", "roll"}
+  Depth = 34
   MaxApiStreak = 2
   MaxDestr = 1
   MftDue = FALSE
